@@ -471,4 +471,31 @@ Definition declared_attr (fuel : nat) (tbl : ctable) (c : cid) (ps : list ty) (n
   | _ => None
   end.
 
+(* ---- the declared types the substitution theorems speak about ---- *)
+
+Definition dwf_member (m : dty) : bool :=
+  match m with DUnion _ => false | DGround (TUnion _) => false | _ => true end.
+(* no union directly below a union (the pyi parser flattens them), no builtins.type with parameters, at most as many
+   parameters as the class's template *)
+Fixpoint dwf (d : dty) : bool :=
+  match d with
+  | DParam _ => true
+  | DGround _ => true
+  | DGeneric c ps => negb (c =? type_id) && (length ps <=? arity c)%nat && forallb dwf ps
+  | DTuple ps => forallb dwf ps
+  | DUnion ts => forallb dwf ts && forallb dwf_member ts
+  end.
+(* no type parameter DIRECTLY below a Union, and not at the top (attribute path: a container of / a tuple with ...) *)
+Definition is_dparam (d : dty) : bool := match d with DParam _ => true | _ => false end.
+Fixpoint no_param_union (d : dty) : bool :=
+  match d with
+  | DParam _ | DGround _ => true
+  | DGeneric _ ps | DTuple ps => forallb no_param_union ps
+  | DUnion ts => forallb no_param_union ts && negb (existsb is_dparam ts)
+  end.
+Definition container_like (d : dty) : bool := match d with DGeneric _ _ | DTuple _ => true | _ => false end.
+(* one view: every parameter value of the declaring class is a single binding *)
+Definition single_ty (p : ty) : bool := negb (is_union p) && negb (is_nothing p).
+Definition nonempty_ty (p : ty) : bool := match conv_var arity p with [] => false | _ => true end.
+
 End WithMatcher.
